@@ -4,4 +4,4 @@ Require Extraction.
 Require Import ExtrOcamlBasic.
 From Coq Require Import ZArith.
 From Verif.C14 Require Import Model Extracted.
-Extraction "model_ml.ml" restore code_cfg walk fs_get stream to_packs Z.add.
+Extraction "model_ml.ml" restore restore_c code_coalesce_guard code_cc code_cfg walk fs_get stream to_packs Z.add.
